@@ -55,7 +55,12 @@ def corpus_job(run, W=16):
             "args": ["replay", "--seed", str(run.seed), os.path.join(vlib.VERIF, "corpus", "map_w%d.ndjson" % W)]}
 
 
-def generic_check(run, models_q, models_t, jobs_q, jobs_t, rule, corpus=False):
+def fault_corpus_job(run, W=16):
+    return {"name": "faultcorpus_w%d" % W, "backend": "sse2" if W == 16 else "generic",
+            "args": ["replay", "--seed", str(run.seed), os.path.join(vlib.VERIF, "corpus", "map_w%d_fault.ndjson" % W)]}
+
+
+def generic_check(run, models_q, models_t, jobs_q, jobs_t, rule, corpus=False, fault_corpus=False):
     quick = run.tier == Q
     run.assumptions += COMMON_ASSUMPTIONS
     for m in (models_q if quick else models_q + models_t):
@@ -66,6 +71,10 @@ def generic_check(run, models_q, models_t, jobs_q, jobs_t, rule, corpus=False):
         jl.append(corpus_job(run, 16))
         if not quick:
             jl.append(corpus_job(run, 8))
+    if fault_corpus:
+        jl.append(fault_corpus_job(run, 16))
+        if not quick:
+            jl.append(fault_corpus_job(run, 8))
     run.traces_parallel(jl)
     try:
         with open(os.path.join(vlib.VERIF, "corpus", "SUMMARY.json")) as f:
@@ -90,7 +99,7 @@ def c02(run):
          ("layg", ["map:kv16:collide:24:2000:wide:" + F, "map:kva64:zero:14:1000:iter", "set:k3:collide:20:1000:set", "table:te24:zero:12:1500:table"], G)],
         "layout matrix (element sizes 1..208, alignments 1..64, with / without drop glue) x collection kinds x hash plans incl. all-colliding, with leaked "
         "drains and injected callback panics; the structural invariant (exactly the preconditions of the unsafe blocks) is evaluated on every observed state; "
-        "checking allocator (red zones, layout match), element registry and debug assertions observe the implementation side", corpus=True)
+        "checking allocator (red zones, layout match), element registry and debug assertions observe the implementation side", corpus=True, fault_corpus=True)
 
 
 def c04(run):
@@ -101,7 +110,8 @@ def c04(run):
          ("fault4", ["set:k8t:zero:14:3000:set:fault=25", "table:te208:collide:20:3000:table:fault=25", "map:kv16:collide:20:2000:two:fault=40,fclass=bh_clone,plan2=fewpos"]),
          ("faultg", ["map:kv16:collide:20:3000:fault:fault=30,plan2=fewpos", "map:k4v4:zero:14:2000:fault:fault=30"], G)],
         "model: every reachable small-scope state x operation x k-th hasher invocation panics (scope guards as written in the code); "
-        "code: random fault injection (Hash, Eq, Clone, Drop, BuildHasher::clone) at the k-th invocation, post-unwind state validated")
+        "code: random fault injection (Hash, Eq, Clone, Drop, BuildHasher::clone) at the k-th invocation and generated behaviours whose growing / "
+        "in-place-rehashing call panics at the k-th hasher invocation; post-unwind state validated", fault_corpus=True)
 
 
 def c05(run):
